@@ -111,7 +111,13 @@ func (e *Env) armRules(l *facts.Level, m *decodeOneModel) {
 		}
 		c.Check(own != nil && a.Field == own, "wiring", cons, pos, "token "+n+" is stored in field "+n+" of this level", fmt.Sprintf("token %s is stored in field %s", n, a.Field.Name()))
 		ps := parsersOf(l.Pkg.Types, a.Field.Type())
-		c.Check(a.Parser != nil && len(ps) == 1 && a.Parser == ps[0], "arm-parser", cons, pos, "value parsed by "+nameOf(a.Parser), fmt.Sprintf("the value is parsed by %s, which is not the parser of %s", nameOf(a.Parser), a.Field.Type()))
+		isParser := false
+		for _, g := range ps {
+			if g == a.Parser {
+				isParser = true
+			}
+		}
+		c.Check(a.Parser != nil && isParser, "arm-parser", cons, pos, "value parsed by "+nameOf(a.Parser), fmt.Sprintf("the value is parsed by %s, which is not the parser of %s", nameOf(a.Parser), a.Field.Type()))
 		c.Check(len(a.Rejects) >= 1, "arm-value", cons, pos, "an unknown value code is rejected", "no rejecting path for an unknown value code of this metric")
 	}
 }
